@@ -122,6 +122,12 @@ pub struct Ingester {
     last_wal_seq: AtomicU64,
     /// Last WAL sequence number that was successfully flushed to S3
     last_flushed_seq: AtomicU64,
+    /// WAL sequence numbers appended but not yet contained in a registered chunk.
+    /// The flushed mark may never reach the smallest of them.
+    unflushed_seqs: parking_lot::Mutex<std::collections::BTreeSet<u64>>,
+    /// Batch groups (with their WAL sequence numbers) whose flush failed; retried
+    /// ahead of the next flush so that accepted rows are not dropped from memory.
+    retry_batches: parking_lot::Mutex<Vec<(Vec<RecordBatch>, Vec<u64>)>>,
     /// Cancellation token for graceful shutdown
     shutdown: CancellationToken,
     /// Bounded clock for skew-safe timestamp operations
@@ -161,6 +167,8 @@ impl Ingester {
             wal_warned: AtomicBool::new(false),
             last_wal_seq: AtomicU64::new(0),
             last_flushed_seq: AtomicU64::new(0),
+            unflushed_seqs: parking_lot::Mutex::new(std::collections::BTreeSet::new()),
+            retry_batches: parking_lot::Mutex::new(Vec::new()),
             shutdown: CancellationToken::new(),
             clock: Arc::new(BoundedClock::default()),
         }
@@ -198,6 +206,8 @@ impl Ingester {
             wal_warned: AtomicBool::new(false),
             last_wal_seq: AtomicU64::new(0),
             last_flushed_seq: AtomicU64::new(0),
+            unflushed_seqs: parking_lot::Mutex::new(std::collections::BTreeSet::new()),
+            retry_batches: parking_lot::Mutex::new(Vec::new()),
             shutdown: CancellationToken::new(),
             clock: Arc::new(BoundedClock::default()),
         }
@@ -240,21 +250,22 @@ impl Ingester {
 
                                     // Keep recovery buffer schema-homogeneous so future flushes do not fail.
                                     if !buffer.schema_compatible(incoming) {
-                                        let existing = buffer.take();
+                                        let (existing, existing_seqs) = buffer.take_with_seqs();
                                         drop(buffer);
                                         // Advance WAL seq before flush so flush_batches persists
                                         // the correct sequence. Without this, a crash after the
                                         // flush but before line `self.last_wal_seq.store(max_seq)`
                                         // would replay already-flushed entries on next recovery.
-                                        self.last_wal_seq.store(max_seq, Ordering::Release);
-                                        self.flush_batches(existing).await?;
+                                        self.last_wal_seq.fetch_max(max_seq, Ordering::AcqRel);
+                                        self.flush_batches(existing, existing_seqs).await?;
                                         continue;
                                     }
 
                                     let incoming = pending_batch.take().ok_or_else(|| {
                                         Error::Internal("Missing pending batch".to_string())
                                     })?;
-                                    buffer.append(incoming)?;
+                                    self.unflushed_seqs.lock().insert(entry.seq);
+                                    buffer.append_with_seq(incoming, entry.seq)?;
                                     break;
                                 }
                                 replayed += 1;
@@ -268,7 +279,7 @@ impl Ingester {
                         }
                     }
                 }
-                self.last_wal_seq.store(max_seq, Ordering::Release);
+                self.last_wal_seq.fetch_max(max_seq, Ordering::AcqRel);
                 let buffer_rows = self.buffer.read().await.row_count();
                 info!(
                     replayed_entries = replayed,
@@ -317,6 +328,7 @@ impl Ingester {
             }
 
             // Normal single-write path
+            let mut wal_seq = 0u64;
             if let Some(wal) = self.wal.as_ref() {
                 let seq = match wal.lock().await.append(&batch).await {
                     Ok(seq) => {
@@ -328,7 +340,8 @@ impl Ingester {
                         return Err(e);
                     }
                 };
-                self.last_wal_seq.store(seq, Ordering::Release);
+                self.note_wal_append(seq);
+                wal_seq = seq;
                 #[cfg(cardinalsin_verif)]
                 crate::verif_hooks::pause("ingester.after_wal_append").await;
             } else if self.config.wal.enabled {
@@ -340,7 +353,8 @@ impl Ingester {
                 }
             }
 
-            self.append_to_buffer_and_maybe_flush(batch, batch_size).await?;
+            self.append_to_buffer_and_maybe_flush(batch, batch_size, wal_seq)
+                .await?;
 
             // Record write metrics for hot shard detection
             let write_latency = start_time.elapsed();
@@ -364,6 +378,7 @@ impl Ingester {
             .await?
             .ok_or_else(|| Error::Internal("Split state disappeared".to_string()))?;
 
+        let mut wal_seq = 0u64;
         if let Some(wal) = self.wal.as_ref() {
             let seq = match wal.lock().await.append(&batch).await {
                 Ok(seq) => {
@@ -375,7 +390,8 @@ impl Ingester {
                     return Err(e);
                 }
             };
-            self.last_wal_seq.store(seq, Ordering::Release);
+            self.note_wal_append(seq);
+            wal_seq = seq;
             #[cfg(cardinalsin_verif)]
             crate::verif_hooks::pause("ingester.after_wal_append").await;
         } else if self.config.wal.enabled {
@@ -388,8 +404,12 @@ impl Ingester {
         }
 
         // Write to old shard first (for consistency during transition)
-        self.append_to_buffer_and_maybe_flush(batch.clone(), batch.get_array_memory_size())
-            .await?;
+        self.append_to_buffer_and_maybe_flush(
+            batch.clone(),
+            batch.get_array_memory_size(),
+            wal_seq,
+        )
+        .await?;
 
         // Split batch by key range and write to new shards
         let (batch_a, batch_b) = self.split_batch_by_key(&batch, &split_state.split_point)?;
@@ -593,6 +613,7 @@ impl Ingester {
         &self,
         batch: RecordBatch,
         batch_size: usize,
+        wal_seq: u64,
     ) -> Result<()> {
         let mut pending_batch = Some(batch);
 
@@ -605,36 +626,87 @@ impl Ingester {
 
             // If schemas differ, flush current buffer before appending.
             if !buffer.schema_compatible(incoming) {
-                let existing = buffer.take();
+                let (existing, existing_seqs) = buffer.take_with_seqs();
                 drop(buffer);
-                self.flush_batches(existing).await?;
+                if let Err(e) = self.flush_batches(existing, existing_seqs).await {
+                    // This write is rejected before its batch reached the buffer.
+                    self.unflushed_seqs.lock().remove(&wal_seq);
+                    return Err(e);
+                }
                 continue;
             }
 
             if buffer.size_bytes() + batch_size > self.config.max_buffer_size_bytes {
                 telemetry::record_buffer_fullness_ratio(1.0);
+                // Rejected: its WAL entry must not hold back the flushed mark.
+                self.unflushed_seqs.lock().remove(&wal_seq);
                 return Err(Error::BufferFull);
             }
 
             let incoming = pending_batch
                 .take()
                 .ok_or_else(|| Error::Internal("Missing pending batch".to_string()))?;
-            buffer.append(incoming)?;
+            buffer.append_with_seq(incoming, wal_seq)?;
             let max_buffer_size = self.config.max_buffer_size_bytes.max(1) as f64;
             telemetry::record_buffer_fullness_ratio(buffer.size_bytes() as f64 / max_buffer_size);
 
             if self.should_flush(&buffer) {
-                let batches = buffer.take();
+                let (batches, seqs) = buffer.take_with_seqs();
                 drop(buffer);
-                self.flush_batches(batches).await?;
+                self.flush_batches(batches, seqs).await?;
             }
 
             return Ok(());
         }
     }
 
-    /// Flush batches to object storage
-    async fn flush_batches(&self, batches: Vec<RecordBatch>) -> Result<()> {
+    /// Record a completed WAL append: the entry is unflushed until a chunk holding it is registered.
+    fn note_wal_append(&self, seq: u64) {
+        // Insert before raising the high watermark (see `safe_flushed_mark`).
+        self.unflushed_seqs.lock().insert(seq);
+        self.last_wal_seq.fetch_max(seq, Ordering::AcqRel);
+    }
+
+    /// Highest WAL sequence number such that every entry at or below it is durably flushed.
+    fn safe_flushed_mark(&self) -> u64 {
+        // Read the high watermark first: an append that lands in between is then
+        // either above it or already in the unflushed set.
+        let high = self.last_wal_seq.load(Ordering::Acquire);
+        match self.unflushed_seqs.lock().iter().next() {
+            Some(min_unflushed) => min_unflushed.saturating_sub(1).min(high),
+            None => high,
+        }
+    }
+
+    /// Flush batches to object storage, after retrying groups left behind by failed flushes.
+    ///
+    /// A group whose flush fails stays in memory (and its WAL entries stay unflushed),
+    /// so the next flush makes its rows queryable.
+    async fn flush_batches(&self, batches: Vec<RecordBatch>, seqs: Vec<u64>) -> Result<()> {
+        let mut groups = std::mem::take(&mut *self.retry_batches.lock());
+        if !batches.is_empty() {
+            groups.push((batches, seqs));
+        }
+        let mut result = Ok(());
+        let mut failed = Vec::new();
+        for (group, group_seqs) in groups {
+            if result.is_err() {
+                failed.push((group, group_seqs));
+                continue;
+            }
+            if let Err(e) = self.flush_group(&group, &group_seqs).await {
+                failed.push((group, group_seqs));
+                result = Err(e);
+            }
+        }
+        if !failed.is_empty() {
+            self.retry_batches.lock().extend(failed);
+        }
+        result
+    }
+
+    /// Flush one schema-homogeneous group of batches as one chunk
+    async fn flush_group(&self, batches: &[RecordBatch], seqs: &[u64]) -> Result<()> {
         if batches.is_empty() {
             return Ok(());
         }
@@ -691,23 +763,34 @@ impl Ingester {
             debug!("No topic broadcast subscribers: {}", e);
         }
 
-        // Truncate WAL after successful flush
-        let flushed_up_to = self.last_wal_seq.load(Ordering::Acquire);
-        if flushed_up_to > 0 {
-            if let Some(wal) = self.wal.as_ref() {
-                if let Err(e) = wal.lock().await.truncate_before(flushed_up_to).await {
+        // The rows of this group are durable in a registered chunk now.
+        {
+            let mut unflushed = self.unflushed_seqs.lock();
+            for seq in seqs {
+                unflushed.remove(seq);
+            }
+        }
+
+        // Truncate WAL after successful flush, but only up to the point below which
+        // nothing is still buffered, in another in-flight flush, or awaiting retry.
+        if let Some(wal) = self.wal.as_ref() {
+            // Marks are computed and persisted under the WAL lock so they only move forward.
+            let mut wal = wal.lock().await;
+            let flushed_up_to = self.safe_flushed_mark();
+            if flushed_up_to > self.last_flushed_seq.load(Ordering::Acquire) {
+                if let Err(e) = wal.truncate_before(flushed_up_to).await {
                     telemetry::record_wal_operation("truncate", "error");
                     return Err(e);
                 }
                 telemetry::record_wal_operation("truncate", "ok");
-            }
-            self.last_flushed_seq
-                .store(flushed_up_to, Ordering::Release);
-            if let Err(e) = persist_flushed_seq(&self.config.wal.wal_dir, flushed_up_to) {
-                telemetry::record_wal_operation("persist_flushed_seq", "error");
-                warn!(error = %e, "Failed to persist flushed WAL sequence number");
-            } else {
-                telemetry::record_wal_operation("persist_flushed_seq", "ok");
+                self.last_flushed_seq
+                    .store(flushed_up_to, Ordering::Release);
+                if let Err(e) = persist_flushed_seq(&self.config.wal.wal_dir, flushed_up_to) {
+                    telemetry::record_wal_operation("persist_flushed_seq", "error");
+                    warn!(error = %e, "Failed to persist flushed WAL sequence number");
+                } else {
+                    telemetry::record_wal_operation("persist_flushed_seq", "ok");
+                }
             }
         }
 
@@ -728,28 +811,29 @@ impl Ingester {
                     let should_flush = {
                         let buffer = self.buffer.read().await;
                         let last_flush = self.last_flush.read().await;
-                        !buffer.is_empty() && last_flush.elapsed() >= self.config.flush_interval
+                        let has_data = !buffer.is_empty() || !self.retry_batches.lock().is_empty();
+                        has_data && last_flush.elapsed() >= self.config.flush_interval
                     };
 
                     if should_flush {
-                        let batches = {
+                        let (batches, seqs) = {
                             let mut buffer = self.buffer.write().await;
-                            buffer.take()
+                            buffer.take_with_seqs()
                         };
 
-                        if let Err(e) = self.flush_batches(batches).await {
+                        if let Err(e) = self.flush_batches(batches, seqs).await {
                             error!("Flush timer failed: {}", e);
                         }
                     }
                 }
                 _ = self.shutdown.cancelled() => {
                     info!("Flush timer shutting down, flushing remaining data");
-                    let batches = {
+                    let (batches, seqs) = {
                         let mut buffer = self.buffer.write().await;
-                        buffer.take()
+                        buffer.take_with_seqs()
                     };
-                    if !batches.is_empty() {
-                        if let Err(e) = self.flush_batches(batches).await {
+                    if !batches.is_empty() || !self.retry_batches.lock().is_empty() {
+                        if let Err(e) = self.flush_batches(batches, seqs).await {
                             error!("Final flush failed during shutdown: {}", e);
                         }
                     }
